@@ -41,6 +41,7 @@ SUITE = [
 def main():
     backends = sys.argv[1:] or ["asm", "c32", "c64", "dxor"]
     report = {}
+    branches = {}
     for be in backends:
         cfg = Cfg(be, 4, 2, 4, instr="gcov") if be != "c32" else Cfg(be, 3, 3, 3, instr="gcov")
         d = build_lib(cfg)
@@ -73,7 +74,7 @@ def main():
         os.makedirs(out_dir)
         gcnos = glob.glob(os.path.join(objdir, "**", "*.gcno"), recursive=True)
         for g in gcnos:
-            subprocess.run(["gcov", "-p", "-o", os.path.dirname(g), g], cwd=out_dir, stdout=subprocess.DEVNULL, stderr=subprocess.DEVNULL)
+            subprocess.run(["gcov", "-p", "-b", "-c", "-o", os.path.dirname(g), g], cwd=out_dir, stdout=subprocess.DEVNULL, stderr=subprocess.DEVNULL)
         for gc in glob.glob(os.path.join(out_dir, "*.gcov")):
             lines = open(gc, errors="replace").read().splitlines()
             srcname = None
@@ -86,10 +87,18 @@ def main():
             rel = srcname.split("/src/", 1)[1]
             missed = []
             total = 0
+            lastline = None
             for l in lines:
+                bm = re.match(r"branch\s+(\d+) (never executed|taken 0)\b", l)
+                if bm and lastline and not lastline[2]:
+                    br = branches.setdefault((be, rel), [])
+                    if not br or br[-1][0] != lastline[0]:
+                        br.append((lastline[0], lastline[1]))
+                    continue
                 m = re.match(r"\s*([^:]+):\s*(\d+):(.*)", l)
                 if not m or m.group(2) == "0":
                     continue
+                lastline = (int(m.group(2)), m.group(3).rstrip(), m.group(1).strip().startswith("#####"))
                 cnt = m.group(1).strip()
                 if cnt == "-":
                     continue
@@ -112,6 +121,13 @@ def main():
             for ln, text in missed:
                 f.write("   %5d: %s\n" % (ln, text[:140]))
         f.write("TOTAL: %d of %d instrumented lines never executed\n" % (mis, tot))
+        nb = 0
+        for (be, rel), br in sorted(branches.items()):
+            f.write("-- [%s] %s: %d executed lines with a branch direction never taken\n" % (be, rel, len(br)))
+            for ln, text in br:
+                f.write("   %5d: %s\n" % (ln, text[:140]))
+            nb += len(br)
+        f.write("BRANCHES: %d executed lines with an untaken branch direction\n" % nb)
     print(open(outp).read()[-3000:])
     print("full report:", outp)
 
